@@ -7,12 +7,63 @@ class NodeBase(HasTraits):
     # comparison_mode none: re-assigning the very same object is an event too (old is new)
     child = Instance("NodeBase", tracked=True, comparison_mode=ComparisonMode.none)
     kids = List(Instance("NodeBase"), ltracked=True)
-    d = Dict(CStr, Instance("NodeBase"))
+    # (Dict traits are copied by reference unless told otherwise; List / Set / Instance default to copy="deep")
+    d = Dict(CStr, Instance("NodeBase"), copy="deep")
+
+
+RUNS = {}          # (id(object), property name) -> number of getter runs
+
+
+def _ran(obj, name):
+    key = (id(obj), name)
+    RUNS[key] = RUNS.get(key, 0) + 1
+
+
+def _tokn(o):
+    return o.__dict__.get("tokn", 0)
+
+
+def _val(o):
+    # never touch `value` on an object whose class lacks it: the failed lookup would cache a Python trait of that
+    # name in the CLASS (finding F7/F12) and the class would from then on "have" the trait
+    return o.value if isinstance(o, Node) else -1
 
 
 class Node(NodeBase):
     value = Int
+    tokn = Int          # pool number of the object (so that getters can name objects; survives copies)
+
+
+class RootBase(Node):
+    """the class of the ROOT object only: observed properties (their class-level observers require `value` on
+    every item of root.kids and on root.child)"""
+    w = Int             # its static handler reads the cached property (also while an object is being copied)
+
+    #: declared with observe dependencies and an UNCACHED getter here; CNode overrides the getter as cached
+    csnap = Property(observe="kids.items.value")
+    #: uncached observed property
+    chv = Property(observe="child.value")
+
+    def _get_csnap(self):
+        _ran(self, "csnap")
+        return tuple((_tokn(k), _val(k)) for k in self.kids)
+
+    def _get_chv(self):
+        _ran(self, "chv")
+        c = self.child
+        return () if c is None else (_tokn(c), _val(c))
+
+    def _w_changed(self):
+        self.csnap
+
+
+class CNode(RootBase):
+    @cached_property
+    def _get_csnap(self):
+        _ran(self, "csnap")
+        return tuple((_tokn(k), _val(k)) for k in self.kids)
 
 
 class Bare(NodeBase):
     """an object of a class WITHOUT the trait `value`"""
+    tokn = Int
